@@ -137,6 +137,7 @@ func NewDelayed(opts ...DelayQueueOption) Delayed {
 		queue:   &pq{},
 		execute: make(chan *delayTask, workerChanBuf),
 		enqueue: make(chan *delayTask, 100),
+		wake:    make(chan struct{}, 1),
 	}
 	for _, o := range opts {
 		o(q)
@@ -150,6 +151,9 @@ type delayQueue struct {
 
 	// incoming
 	enqueue chan *delayTask
+	// wake tells Run that a task was pushed directly to the heap (see pushInternal), so that it
+	// looks at the heap again instead of waiting for the next enqueue or for an older head to expire.
+	wake chan struct{}
 	// outgoing
 	execute chan *delayTask
 
@@ -179,6 +183,12 @@ func (d *delayQueue) pushInternal(task *delayTask) {
 		d.mu.Lock()
 		heap.Push(d.queue, task)
 		d.mu.Unlock()
+		// Run may be about to park (or already waiting for an older head): without a wake-up the task
+		// would stay on the heap until the next enqueue. A pending wake-up is enough, never block.
+		select {
+		case d.wake <- struct{}{}:
+		default:
+		}
 	}
 }
 
@@ -234,6 +244,11 @@ func (d *delayQueue) Run(stop <-chan struct{}) {
 					// that was just pushed
 					heap.Push(d.queue, task)
 					d.mu.Unlock()
+				case <-d.wake:
+					// a task was pushed directly to the heap; put the old "head" back and look again
+					d.mu.Lock()
+					heap.Push(d.queue, task)
+					d.mu.Unlock()
 				case <-await.C:
 					if !push(task) {
 						return
@@ -251,6 +266,8 @@ func (d *delayQueue) Run(stop <-chan struct{}) {
 				d.mu.Lock()
 				d.queue.Push(t)
 				d.mu.Unlock()
+			case <-d.wake:
+				// a task was pushed directly to the heap; look again
 			case <-stop:
 				return
 			}
